@@ -76,7 +76,8 @@ type world struct {
 	newMan  []byte
 	netmap  util.Uint160
 	users   map[int]neotest.Signer
-	q       [][][]byte // current query groups
+	q       [][][]byte  // current query groups
+	alpha   *alphaWorld // Alphabet cases: the contract's surroundings
 }
 
 func pubs(c *chainx.Chain, ids []int) [][]byte {
@@ -111,8 +112,14 @@ func (w *world) deployNetmapDep() {
 	w.c.RegisterNNS("netmap", w.netmap)
 }
 
-func newWorld(t testing.TB, run *hx.Run, sc *chainx.Scratch, kind string, n, v int, wf bool) *world {
-	w := &world{t: t, run: run, c: chainx.New(t, n), kind: kind, n: n, v: v, wf: wf, users: map[int]neotest.Signer{}}
+func newWorld(t testing.TB, run *hx.Run, sc *chainx.Scratch, cs caseSpec) *world {
+	kind, n, v, wf := cs.kind, cs.n, cs.v, cs.wf
+	w := &world{t: t, run: run, kind: kind, n: n, v: v, wf: wf, users: map[int]neotest.Signer{}}
+	if kind == "alphabet" {
+		w.c = chainx.New(t, n, notaryChain) // with the native Notary contract
+	} else {
+		w.c = chainx.New(t, n)
+	}
 	c := w.c
 	old := c.CompileOld(sc, kind, v)
 	switch kind {
@@ -130,7 +137,7 @@ func newWorld(t testing.TB, run *hx.Run, sc *chainx.Scratch, kind string, n, v i
 	case "neofsid":
 		w.h = w.mustDeploy(old, []any{false, nil, nil, nil, nil})
 	case "alphabet":
-		w.h = w.mustDeploy(old, []any{false, util.Uint160{3}, util.Uint160{4}, "az", int64(0), int64(1)})
+		w.setupAlphabet(sc, old, cs)
 	case "audit", "proxy":
 		w.h = w.mustDeploy(old, nil)
 	case "reputation":
@@ -552,6 +559,8 @@ func (w *world) view(q [][][]byte) string {
 			ks = append(ks, hx.Hex(o)+":["+hexList(l)+"]")
 		}
 		fmt.Fprintf(&sb, " keys=[%s]", strings.Join(ks, ";"))
+	case "alphabet":
+		fmt.Fprintf(&sb, " name=%s", w.nameAnswer())
 	}
 	return sb.String()
 }
@@ -571,7 +580,11 @@ func (w *world) obs(halt bool, q [][][]byte) string {
 	if halt {
 		st = "HALT"
 	}
-	return fmt.Sprintf("%s | ver=%s raw=[%s]%s", st, w.version(), showRaw(w.scan()), w.view(q))
+	ex := ""
+	if w.kind == "alphabet" {
+		ex = ledgerView(w.ledger(w.alpha.acc))
+	}
+	return fmt.Sprintf("%s | ver=%s raw=[%s]%s%s", st, w.version(), showRaw(w.scan()), w.view(q), ex)
 }
 
 // ---------------------------------------------------------------- execution of one op line
@@ -586,6 +599,10 @@ func (w *world) execOp(line string) (string, string) {
 	switch fs[1] {
 	case "load":
 		w.run.Count("op.load")
+		if w.kind == "alphabet" {
+			fs, _, _, _ = w.fillAlpha(fs, nil)
+			line = strings.Join(fs, " ")
+		}
 		if w.updated {
 			r := w.c.Invoke(nil, w.h, "verifPut", []byte{1}, []byte{1})
 			if r.Halt {
@@ -611,8 +628,16 @@ func (w *world) execOp(line string) (string, string) {
 		if attr(fs, "nef") == "bad" {
 			nef = append([]byte{}, nef[:len(nef)/2]...)
 		}
+		data := parseItem(attr(fs, "data"))
+		var led []ledgerEntry
+		var blobs, ir [][]byte
+		nameBefore := ""
+		if w.kind == "alphabet" {
+			fs, led, blobs, ir = w.fillAlpha(fs, data)
+			nameBefore = w.nameAnswer()
+		}
 		pend := w.before()
-		r := w.c.InvokeFee(signers, bigFee, w.h, "update", nef, w.newMan, parseItem(attr(fs, "data")))
+		r := w.c.InvokeFee(signers, bigFee, w.h, "update", nef, w.newMan, data)
 		seen := int(r.Height) - 1 // ledger.CurrentIndex() during the execution of block r.Height
 		for i, f := range fs {
 			if strings.HasPrefix(f, "h=") {
@@ -627,6 +652,9 @@ func (w *world) execOp(line string) (string, string) {
 			w.run.Count("out.update.fault")
 		}
 		w.after(pend, signers, role, r)
+		if w.kind == "alphabet" {
+			w.alphaMonitor(pend.pre, pend.preVer, data, led, blobs, ir, r, nameBefore)
+		}
 		return line, w.obs(r.Halt, q)
 	}
 	w.t.Fatalf("bad op line %q", line)
@@ -641,6 +669,12 @@ func (w *world) designate(role []int) {
 	accs := chainx.MemberAccounts(w.n)
 	pk := make(keys.PublicKeys, 0, len(role))
 	for _, id := range role {
+		if w.kind == "alphabet" {
+			// the Inner Ring that receives GAS: keys of their own (committee members earn block rewards and
+			// fees with every block, which would blur the GAS observations)
+			pk = append(pk, chainx.Key(fmt.Sprintf("inner-ring-%d", id)).PublicKey())
+			continue
+		}
 		pk = append(pk, accs[id].PublicKey())
 	}
 	if r := w.c.DesignateAlphabet(pk); !r.Halt {
@@ -657,6 +691,19 @@ type caseSpec struct {
 	v    int
 	wf   bool
 	role []int
+	// Alphabet cases: GAS on the contract, number of storage nodes in the network map, whether the last node's
+	// record is too short to hold a key, whether Proxy is registered in the NNS
+	gas      string
+	sn       int
+	short    bool
+	nnsProxy bool
+}
+
+func b01(b bool) string {
+	if b {
+		return "1"
+	}
+	return "0"
 }
 
 func (cs caseSpec) line() (string, []string) {
@@ -664,7 +711,11 @@ func (cs caseSpec) line() (string, []string) {
 	if !cs.wf {
 		k = "nonwf"
 	}
-	return cs.id, []string{k, "k=" + cs.kind, fmt.Sprintf("n=%d", cs.n), fmt.Sprintf("v=%d", cs.v), "role=" + fmtIDs(cs.role)}
+	attrs := []string{k, "k=" + cs.kind, fmt.Sprintf("n=%d", cs.n), fmt.Sprintf("v=%d", cs.v), "role=" + fmtIDs(cs.role)}
+	if cs.kind == "alphabet" {
+		attrs = append(attrs, "gas="+cs.gas, fmt.Sprintf("sn=%d", cs.sn), "short="+b01(cs.short), "nnsp="+b01(cs.nnsProxy))
+	}
+	return cs.id, attrs
 }
 
 func parseCase(l string) caseSpec {
@@ -673,11 +724,18 @@ func parseCase(l string) caseSpec {
 	cs.n, _ = strconv.Atoi(attr(fs, "n"))
 	cs.v, _ = strconv.Atoi(attr(fs, "v"))
 	cs.role = parseIDs(attr(fs, "role"))
+	cs.gas = attr(fs, "gas")
+	if cs.gas == "" {
+		cs.gas = "0"
+	}
+	cs.sn, _ = strconv.Atoi(attr(fs, "sn"))
+	cs.short = attr(fs, "short") == "1"
+	cs.nnsProxy = attr(fs, "nnsp") == "1"
 	return cs
 }
 
 func startCase(t testing.TB, run *hx.Run, sc *chainx.Scratch, cs caseSpec) *world {
-	w := newWorld(t, run, sc, cs.kind, cs.n, cs.v, cs.wf)
+	w := newWorld(t, run, sc, cs)
 	w.designate(cs.role)
 	id, attrs := cs.line()
 	run.Case(id, attrs...)
